@@ -969,6 +969,21 @@ func (st *Runtime) evalMultiplicativeExpression(node *MultiplicativeExprNode) re
 	// if the left value is not a float and the right is, we need to promote the left value to a float before the calculation
 	// this is necessary for expressions like 4*1.23
 	needFloatPromotion := !isFloat(kind) && isFloat(right.Kind())
+	// integer division and modulo by zero are reported as errors (Go would panic with a runtime error)
+	intDivisor := func() int64 {
+		divisor := toInt(right)
+		if divisor == 0 {
+			node.Right.errorf("integer division by zero in multiplicative expression")
+		}
+		return divisor
+	}
+	uintDivisor := func() uint64 {
+		divisor := toUint(right)
+		if divisor == 0 {
+			node.Right.errorf("integer division by zero in multiplicative expression")
+		}
+		return divisor
+	}
 	switch node.Operator.typ {
 	case itemMul:
 		if isInt(kind) {
@@ -995,7 +1010,7 @@ func (st *Runtime) evalMultiplicativeExpression(node *MultiplicativeExprNode) re
 			if needFloatPromotion {
 				left = reflect.ValueOf(float64(left.Int()) / right.Float())
 			} else {
-				left = reflect.ValueOf(left.Int() / toInt(right))
+				left = reflect.ValueOf(left.Int() / intDivisor())
 			}
 		} else if isFloat(kind) {
 			left = reflect.ValueOf(left.Float() / toFloat(right))
@@ -1003,18 +1018,18 @@ func (st *Runtime) evalMultiplicativeExpression(node *MultiplicativeExprNode) re
 			if needFloatPromotion {
 				left = reflect.ValueOf(float64(left.Uint()) / right.Float())
 			} else {
-				left = reflect.ValueOf(left.Uint() / toUint(right))
+				left = reflect.ValueOf(left.Uint() / uintDivisor())
 			}
 		} else {
 			node.Left.errorf("a non numeric value in multiplicative expression")
 		}
 	case itemMod:
 		if isInt(kind) {
-			left = reflect.ValueOf(left.Int() % toInt(right))
+			left = reflect.ValueOf(left.Int() % intDivisor())
 		} else if isFloat(kind) {
-			left = reflect.ValueOf(int64(left.Float()) % toInt(right))
+			left = reflect.ValueOf(int64(left.Float()) % intDivisor())
 		} else if isUint(kind) {
-			left = reflect.ValueOf(left.Uint() % toUint(right))
+			left = reflect.ValueOf(left.Uint() % uintDivisor())
 		} else {
 			node.Left.errorf("a non numeric value in multiplicative expression")
 		}
